@@ -604,3 +604,80 @@ def run_gram_moves(ctx, rep, n_cases=None):
         if any(w1[j] != w0[j] for j in zero_cols):
             rep.violate("a Gram epoch moves the coefficient of an all-zero column", dict(site="_gram_cd_epoch", kind="null-column"),
                         input=inp, impl_output=dict(w=w1.tolist()))
+
+
+# ------------------------------------------------------------------ prox-Newton direction (inner CD on the quadratic model)
+def run_pn_direction(ctx, rep, n_cases=None):
+    from skglm.solvers.prox_newton import _descent_direction, _descent_direction_s, _construct_grad, MAX_CD_ITER
+    rng = ctx.rng
+    n_cases = n_cases or ctx.n(40, 400)
+    lines, metas = [], []
+    for _ in range(n_cases):
+        n, p, X, dfk, y = _pn_problem(rng)
+        if rng.random() < 0.3 and p >= 2:
+            X = X.copy(order="F")
+            X[:, rng.randrange(p)] = 0.0          # null column: skipped
+        df = Dfit(dfk)
+        pk = gen.pick(rng, ["l1", "l1", "l1l2", "wl1", "mcp", "box", "l1+"])
+        alpha = gen.pick(rng, [0.01, 0.05, 0.2])
+        pen = {"l1+": Pen("l1", alpha, positive=True), "l1l2": Pen("l1l2", alpha, l1_ratio=0.5),
+               "mcp": Pen("mcp", alpha, gamma=3.0), "box": Pen("box", 1.0)}.get(pk) or Pen(pk, alpha)
+        wts = [gen.pick(rng, [0.0, 0.5, 1.0, 2.0]) if pen.kind in Pen.WEIGHTED else 1.0 for _ in range(p)]
+        pobj = compiled_pen(pen, wts if pen.kind in Pen.WEIGHTED else None)
+        dobj = compiled_df(df)
+        fi = rng.random() < 0.5
+        w0 = np.array([rng.gauss(0, 0.5) if rng.random() < 0.5 else 0.0 for _ in range(p)])
+        if pen.kind == "box":
+            w0 = np.clip(np.abs(w0), 0, 1.0)
+        if pen.positive:
+            w0 = np.abs(w0)
+        b0 = rng.gauss(0, 0.3) if fi else 0.0
+        Xw0 = X @ w0 + b0
+        ws = np.array(rng.sample(range(p), rng.randrange(1, p + 1)), dtype=np.int64)
+        wfull = np.append(w0, b0)
+        prob = f"{df.tokens()} {n} {p} {mat(X)} {_v(np.ones(n))} {_v(y)} {pen.tokens()} {_v(wts)} {b(fi)}"
+        st = f"{_v(w0)} {fb(b0)} {_v(Xw0)}"
+        line = f"pn_direction {prob} {st} {ivec(ws)} {MAX_CD_ITER}"
+        inp = dict(datafit=df.describe(), X=X.tolist(), y=y.tolist(), penalty=pen.describe(), weights=wts,
+                   fit_intercept=fi, w=w0.tolist(), intercept=b0, ws=ws.tolist())
+        for sparse in (False, True):
+            grad_ws = call(_construct_grad, X, y, wfull[:p], Xw0, dobj, ws)
+            if sparse:
+                Xs = to_csc(X, rng, explicit_zeros=rng.random() < 0.3)
+                r = call(_descent_direction_s, Xs.data, Xs.indptr, Xs.indices, y, wfull.copy(), Xw0.copy(), fi, grad_ws,
+                         dobj, pobj, ws, 0.0, "subdiff")
+            else:
+                r = call(_descent_direction, X, y, wfull.copy(), Xw0.copy(), fi, grad_ws, dobj, pobj, ws, 0.0, "subdiff")
+            lines.append(line)
+            metas.append((sparse, r, inp, X, ws, fi, p, n))
+    outs = lean.drive(lines)
+    for line, out, (sparse, r, inp, X, ws, fi, p, n) in zip(lines, outs, metas):
+        m = decode(out)
+        site = "_descent_direction" + ("_s" if sparse else "")
+        if isinstance(r, str):
+            rep.violate(f"{site} raises {r}", dict(site=site, kind="raises"), input=inp, impl_output=r, lines=[line[:300]])
+            continue
+        delta, Xd, lips_ws = (np.asarray(t, float) for t in r)
+        dw = np.zeros(p)
+        dw[ws] = delta[:len(ws)]
+        db = float(delta[-1]) if fi else 0.0
+        m_dw, m_db, m_Xd, m_L = m[:p], m[p], m[p + 1:p + 1 + n], m[p + 1 + n:]
+        moved = bool(np.any(dw != 0) or db != 0)
+        rep.count(f"pn:dir:{inp['datafit']['kind']}:{inp['penalty']['kind']}:{'csc' if sparse else 'dense'}:"
+                  f"{'moved' if moved else 'still'}", not moved, ("pndir", sparse, hash(line)))
+        i = list(dw) + [db] + list(Xd)
+        if not same([float(t) for t in i], m_dw + [m_db] + m_Xd, 1e-7, 1e-9):
+            rep.disagree("K:pn-direction", line[:300], [float(t) for t in i], m_dw + [m_db] + m_Xd, dict(site=site), input=inp)
+        if not same([float(t) for t in lips_ws], [m_L[j] for j in ws], 1e-8, 1e-11):
+            rep.disagree("K:pn-direction-lipschitz", line[:300], [float(t) for t in lips_ws], [m_L[j] for j in ws],
+                         dict(site=site), input=inp)
+        # the hypothesis of the line-search theorems, recomputed: X_delta_w = X dw + db
+        want = X @ dw + db
+        if not np.allclose(want, Xd, rtol=1e-8, atol=1e-9):
+            rep.violate("the direction returned by the inner solver is inconsistent: X_delta_w is not X delta_w + delta_intercept",
+                        dict(site=site, kind="buffer"), input=inp, impl_output=dict(delta=delta.tolist(), X_delta_w=Xd.tolist()),
+                        oracle=dict(X_delta_w=want.tolist()), lines=[line[:300]])
+        zero_cols = [j for j in ws if not np.any(X[:, j])]
+        if any(dw[j] != 0 for j in zero_cols):
+            rep.violate("the inner solver moves the coefficient of an all-zero column", dict(site=site, kind="null-column"),
+                        input=inp, impl_output=dict(delta=delta.tolist()), lines=[line[:300]])
